@@ -1,5 +1,5 @@
 (* Extract/D17.v — text-line interpreter of the C17 model and spec. *)
-From PV Require Import Base.Slice Model.DNS Model.DNSMerge Model.DNSRecords Model.DNSNbns Spec.RFC1035 Base.Text.
+From PV Require Import Base.Slice Model.DNS Model.DNSMerge Model.DNSRecords Model.DNSNbns Model.DNSMdns Spec.RFC1035 Base.Text.
 Open Scope string_scope.
 Open Scope N_scope.
 
@@ -275,8 +275,92 @@ Definition run_nna (b : bytes) : string :=
               end in
   out3 mobs sobs "-".
 
-(* ---- merge / upd ---- *)
+(* ---- mdns: ProcessMDNS histories on one handler ---- *)
 Definition comma : ascii := ","%char.
+Definition fqdn (n : bytes) : bytes := (n ++ [46])%list.
+
+(* TXT RDATA -> character strings (done by dnsmessage for the implementation) *)
+Fixpoint txt_strings (fuel : nat) (b : bytes) : list bytes :=
+  match fuel, b with
+  | S f, l :: r => firstn (N.to_nat l) r :: txt_strings f (skipn (N.to_nat l) r)
+  | _, _ => []
+  end.
+
+Definition parse_item (it : string) : option (option bytes * option (string * mres)) :=
+  match split ":"%char it with
+  | [k; n] => if String.eqb k "q" then option_map (fun x => (Some (fqdn x), None)) (bytes_of_tok n) else None
+  | [sec; ty; n; d] =>
+      match bytes_of_tok n, bytes_of_tok d with
+      | Some n', Some d' =>
+          let body := if String.eqb ty "A" then MB_A d' else if String.eqb ty "Q" then MB_AAAA d'
+                      else if String.eqb ty "T" then MB_TXT (txt_strings (S (List.length d')) d') else MB_other in
+          Some (None, Some (sec, mkRes (fqdn n') body))
+      | _, _ => None
+      end
+  | _ => None
+  end.
+
+Fixpoint parse_items (its : list string) : option (list bytes * list (string * mres)) :=
+  match its with
+  | [] => Some ([], [])
+  | it :: r =>
+      if String.eqb it "-" then parse_items r else
+      match parse_item it, parse_items r with
+      | Some (q, rs), Some (qs, rss) =>
+          Some (match q with Some x => x :: qs | None => qs end, match rs with Some x => x :: rss | None => rss end)
+      | _, _ => None
+      end
+  end.
+
+Definition parse_step (st : string) : option mmsg :=
+  match split comma st with
+  | [id; qr; _; items] =>
+      match N_of_dec id, parse_items (split "/"%char items) with
+      | Some id', Some (qs, rs) =>
+          (* the wire carries the sections in the order answer, authority, additional *)
+          let sect := fun k => map snd (filter (fun x => String.eqb (fst x) k) rs) in
+          Some (mkMsg id' (String.eqb qr "R") qs (sect "a" ++ sect "n" ++ sect "r")%list)
+      | _, _ => None
+      end
+  | _ => None
+  end.
+
+Definition show_ipn (e : ipname) : string :=
+  tok_of_bytes (in_ip e) ++ "=" ++ tok_of_bytes (in_name e) ++ "=" ++ tok_of_bytes (in_model e) ++ "=" ++ tok_of_bytes (in_manu e).
+Definition show_mdns (r : list ipname * list ipname) : string :=
+  "4:" ++ join "," (map show_ipn (fst r)) ++ "|6:" ++ join "," (map show_ipn (snd r)).
+
+(* reference names with the attributes of the model's entries *)
+Fixpoint with_names (l : list ipname) (ref : list (bytes * bytes)) : list ipname :=
+  match l, ref with
+  | e :: l', (ip, n) :: r' => mkIPN ip n (in_model e) (in_manu e) :: with_names l' r'
+  | [], (ip, n) :: r' => mkIPN ip n [] [] :: with_names [] r'
+  | _, [] => []
+  end.
+
+Definition spec_mdns (c : mcache) (mac : bytes) (m : mmsg) (r : list ipname * list ipname) : string :=
+  if negb (mm_response m) then
+    match fst r with
+    | e :: _ => show_mdns ([mkIPN [] (ref_query_name (mm_questions m)) [] (in_manu e)], [])
+    | [] => if nonempty (ref_query_name (mm_questions m)) then "missing-query-name" else show_mdns r
+    end
+  else if in_cache c mac (mm_id m) then show_mdns r
+  else show_mdns (with_names (fst r) (ref_mdns_v4 (mm_resources m)), with_names (snd r) (ref_mdns_v6 (mm_resources m))).
+
+Fixpoint run_mdns (steps : list string) (c : mcache) (mac : bytes) (macc sacc : list string) : option (string * string) :=
+  match steps with
+  | [] => Some (join ";" (rev macc), join ";" (rev sacc))
+  | st :: r =>
+      match parse_step st with
+      | Some m =>
+          let '(res, c') := processMDNS c mac m in
+          run_mdns r c' mac (show_mdns res :: macc) (spec_mdns c mac m res :: sacc)
+      | None => None
+      end
+  end.
+
+(* ---- merge / upd ---- *)
+
 
 Definition parse_entry (f : list string) : option NameEntry :=
   match f with
@@ -361,6 +445,18 @@ Definition dispatch (kind : string) (args : list string) : string :=
   else if String.eqb kind "nbns" then
     match args with
     | [b] => match bytes_of_tok b with Some b' => run_nbns b' | None => BADARGS end
+    | _ => BADARGS
+    end
+  else if String.eqb kind "mdns" then
+    match args with
+    | [mac; steps] =>
+        match bytes_of_tok mac with
+        | Some mac' => match run_mdns (split ";"%char steps) [] mac' [] [] with
+                       | Some (m, sp') => out3 m sp' "-"
+                       | None => BADARGS
+                       end
+        | None => BADARGS
+        end
     | _ => BADARGS
     end
   else if String.eqb kind "nbenc" then
